@@ -305,7 +305,7 @@ func cwJob(to cwTimeout, sh cwShape, first int, maxLen int) sched.Job {
 				if fv, ok := viol[v.Key]; ok {
 					fv.Count++
 				} else {
-					viol[v.Key] = &sched.FoundViolation{Key: v.Key, What: v.What, Trace: []string{"script=" + scriptString(sc)}, Count: 1}
+					viol[v.Key] = &sched.FoundViolation{Key: v.Key, What: v.What, Trace: strings.Split(scriptString(sc), ","), Count: 1} // one element per answer: the shortest script wins the merge
 				}
 			}
 		}
@@ -328,7 +328,7 @@ func cwReplay(name string, trace []string, n int) [][]sched.Violation {
 				if len(trace) == 0 {
 					return nil
 				}
-				sc := parseScript(strings.TrimPrefix(trace[0], "script="))
+				sc := parseScript(strings.Join(trace, ","))
 				for i := 0; i < n; i++ {
 					seqBegin()
 					w, err := newCWWorld()
